@@ -741,11 +741,11 @@ fn c17_composite(threads_form: bool, nops: usize) {
   let mut unsubscribed = false;
   let mut closed_seen = false;
   e::note(if threads_form { "MultiSubscriptionThreads".to_string() } else { "MultiSubscription".to_string() });
-  for _ in 0..nops {
+  'ops: for _ in 0..nops {
     match e::choose(5) {
       0 => {
         if children >= 3 {
-          e::prune();
+          break 'ops;
         }
         let id = children;
         children += 1;
@@ -804,7 +804,7 @@ fn c17_composite(threads_form: bool, nops: usize) {
       _ => {
         // a child finishes by itself
         if children == 0 {
-          e::prune();
+          break 'ops;
         }
         let id = e::choose(children as u32) as usize;
         e::note(format!("child{} finishes", id));
